@@ -1424,12 +1424,14 @@ class Store:
             target_topology = tuple(target_topology.get('_path', ()))
         target_topology = target_topology + extended_path
         target_node = process_store.outer.get_path(target_topology)
-        target = target_node.add_node(source_path, source_node)
-        target_path = target.path_for() + source_path
+        target_node.add_node(source_path, source_node)
+        # (the source path is kept below the target store, also when it
+        # has several keys)
+        target_path = target_node.path_for() + source_path
         # give the moved node the variables declared for the children
         # of its new parent, as for added and generated nodes
-        target._apply_subschema_path(source_path)
-        target.get_path(source_path).apply_defaults()
+        target_node._apply_subschema_path(source_path)
+        target_node.get_path(source_path).apply_defaults()
 
         # find the paths to all the processes
         source_process_paths = source_node.depth(
